@@ -275,6 +275,13 @@ def s_same_location(E, tier):
             a = rel_paths(Config(d / 'data8', fph, global_vars={'T': 'one'}).chain(), d / 'data8')
             b = rel_paths(Config(d / 'data9', fph, global_vars={'T': 'two'}).chain(), d / 'data9')
             c = rel_paths(Config(d / 'data10', fph, global_vars={'T': 'one'}, context={'n': params['n']}).chain(), d / 'data10')
+        # a path-typed parameter with a placeholder (the un-substituted text is what is persisted)
+        fpl = E.write(d, 'phloc', {'tasks': [f'{LIB}.Loc'], 'p': '{T}/x'})
+        with quiet():
+            la = rel_paths(Config(d / 'data11', fpl, global_vars={'T': '/one'}).chain(), d / 'data11')
+            lb = rel_paths(Config(d / 'data12', fpl, global_vars={'T': '/two'}).chain(), d / 'data12')
+        if la != lb:
+            E.viol('C02', 'placeholder', f'path-typed parameter: the location depends on the value substituted for a placeholder: {la} vs {lb}', 'p={T}/x', key='placeholder-path')
         if a != b or a != c:
             E.viol('C02', 'placeholder', f'the location depends on the value substituted for a placeholder: {a.get("report")} vs {b.get("report")} vs {c.get("report")}', pp)
 
@@ -289,8 +296,9 @@ def s_different_location(E, tier):
              ('tags', ['ab'], ['a', 'b']), ('tags', 1, '1'), ('tags', [1, 2], [1, [2]]), ('tags', {'a': 1, 'b': 2}, {'a': 1, 'b': 3}), ('tags', None, 'None'),
              ('title', 't', 'u'), ('tags', 1, 1.5), ('tags', [], {}), ('tags', 'a, b', ['a', 'b'])]
     wdef = lambda **kw: {'class': f'{LIB}.Weights', 'kwargs': kw}
-    pairs += [('w', wdef(scale=1), wdef(scale=2)), ('w', wdef(scale=1, bias=1), wdef(scale=1, bias=2)), ('w', wdef(scale=[1, 2]), wdef(scale=[1, 3]))]
-    for k, v1, v2 in (pairs if tier == 'thorough' else pairs[:12] + pairs[-2:]):
+    pairs += [('w', wdef(scale=1), wdef(scale=2)), ('w', wdef(scale=1, bias=1), wdef(scale=1, bias=2)), ('w', wdef(scale=[1, 2]), wdef(scale=[1, 3])),
+              ('w', wdef(scale=1, bias=None), wdef(scale=1)), ('w', wdef(scale=None), wdef(scale=0))]
+    for k, v1, v2 in (pairs if tier == 'thorough' else pairs[:12] + pairs[-4:]):
         base = {'n': 2}
         d = E.dir()
         E.tried += 1
@@ -701,6 +709,9 @@ def s_migration(E, tier):
                 p = os.path.join(dp, f)
                 out[os.path.relpath(p, root)] = hashlib.sha256(open(p, 'rb').read()).hexdigest()
         return out
+
+    def dirs(root):
+        return {os.path.relpath(os.path.join(dp, x), root) for dp, dn, fn in os.walk(root) for x in dn}
     for computed in (['report'], ['data:dbl'], [], ['model:agg:total', 'gen', 'tree']):
         for nsmode in (False, True):
             d = E.dir()
@@ -714,13 +725,17 @@ def s_migration(E, tier):
                 for p_ in pref:
                     for c in computed:
                         _ = old[p_ + c].value
-                had = {n: t.has_data for n, t in old.tasks.items() if t.data_path is not None}
-                vals = {n: old[n].value for n in had if had[n] and not n.endswith('tree')}
-                before = tree(src)
+                dirs0 = dirs(src)           # before anything inspects the store
                 cfgo = Config(src, f)
                 migrate_to_parameter_mode(cfgo, dst, dry=True, verbose=bool(E.r.getrandbits(1)))
                 if tree(dst):
                     E.viol('C20', 'dry', f'a dry migration wrote {sorted(tree(dst))[:3]}', computed)
+                if dirs(src) != dirs0:
+                    E.viol('C20', 'source_dirs', f'a dry migration created directories in the SOURCE directory: {sorted(dirs(src) - dirs0)[:4]}', computed,
+                           key='work-directories-created-by-inspection')
+                had = {n: t.has_data for n, t in old.tasks.items() if t.data_path is not None}
+                vals = {n: old[n].value for n in had if had[n] and not n.endswith('tree')}
+                before = tree(src)
                 migrate_to_parameter_mode(Config(src, f), dst, dry=False, verbose=False)
                 after_first = tree(dst)
                 migrate_to_parameter_mode(Config(src, f), dst, dry=False, verbose=False)
@@ -815,8 +830,175 @@ def s_run_records(E, tier):
             pass
 
 
+
+def _json_text(v):
+    return json.dumps(v, sort_keys=True)
+
+
+def _strings_in(v):
+    if isinstance(v, str):
+        yield v
+    elif isinstance(v, list):
+        for x in v:
+            yield from _strings_in(x)
+    elif isinstance(v, dict):
+        for k, x in v.items():
+            yield k
+            yield from _strings_in(x)
+
+
+def s_injective(E, tier):
+    """C03: two JSON-like values that differ (as JSON documents) get different persisted texts and different locations -
+    searched over a grammar of adversarial values (quotes, separators, brackets inside strings; nesting; look-alike types)"""
+    from taskchain import Config
+    from taskchain.utils.clazz import repr_from_instantiation
+    r = E.r
+    atoms = [None, True, False, 0, 1, 2, 1.5, '', 'a', 'b', 'a, b', "a', 'b", "'", "a'", "'a", 'None', 'True', '1', '[]', "['a']", '{}', "a': 1, 'b", ': ', 'a: 1']
+
+    def gen(depth):
+        x = r.random()
+        if depth == 0 or x < 0.45:
+            return r.choice(atoms)
+        if x < 0.75:
+            return [gen(depth - 1) for _ in range(r.choice([0, 1, 2, 2, 3]))]
+        return {r.choice(['a', 'b', "a'", "a': 1, 'b", 'k']): gen(depth - 1) for _ in range(r.choice([1, 2]))}
+    def confusable(v):
+        """values built to look like v once strings are quoted without escaping"""
+        if isinstance(v, list):
+            for i in range(len(v) - 1):
+                if isinstance(v[i], str) and isinstance(v[i + 1], str):
+                    yield v[:i] + [f"{v[i]}', '{v[i + 1]}"] + v[i + 2:]
+            for i, x in enumerate(v):
+                for y in confusable(x):
+                    yield v[:i] + [y] + v[i + 1:]
+        elif isinstance(v, dict):
+            ks = sorted(v)
+            for a, b in zip(ks, ks[1:]):
+                if isinstance(v[a], (int, float)) and not isinstance(v[a], bool) or v[a] is None:
+                    w = {k: x for k, x in v.items() if k not in (a, b)}
+                    w[f"{a}': {v[a]!r}, '{b}"] = v[b]
+                    yield w
+            for k, x in v.items():
+                for y in confusable(x):
+                    yield {**v, k: y}
+    vals, seen = [], set()
+    for _ in range(400 if tier == 'quick' else 4000):
+        v = gen(2)
+        for w in [v] + list(confusable(v))[:3]:
+            jt = _json_text(w)
+            if jt not in seen:
+                seen.add(jt)
+                vals.append(w)
+    by_text = {}
+    for v in vals:
+        by_text.setdefault(repr_from_instantiation(v), []).append(v)
+    E.tried += len(vals)
+    reported = set()
+    checked_on_chain = 0
+    for text, group in by_text.items():
+        if len(group) < 2:
+            continue
+        v1, v2 = group[0], group[1]
+        quote = any("'" in s_ for v in (v1, v2) for s_ in _strings_in(v))
+        key = 'unescaped-quote-in-string' if quote else 'other-collision'
+        if key in reported and checked_on_chain >= 2:
+            continue
+        # confirm on the real chain: same location for the task that declares the parameter
+        same_loc = None
+        if checked_on_chain < 4:
+            checked_on_chain += 1
+            d = E.dir()
+            with quiet():
+                p1 = rel_paths(Config(d / 'data', E.write(d, 'c1', cfg(n=1, tags=v1))).chain(), d / 'data')
+                p2 = rel_paths(Config(d / 'data', E.write(d, 'c2', cfg(n=1, tags=v2))).chain(), d / 'data')
+            same_loc = p1['model:agg:total'] == p2['model:agg:total']
+            if not same_loc:
+                continue
+        if key not in reported:
+            reported.add(key)
+            E.viol('C03', 'injective', f'the values {v1!r} and {v2!r} differ but have the same persisted text {text!r}' +
+                   (' and the same storage location' if same_loc else '') +
+                   (' (strings are quoted without escaping the quote character)' if quote else ''), (v1, v2), key=key)
+    # parameter objects: classes of the same name in different modules have the same text
+    d = E.dir()
+    E.tried += 1
+    wdef = lambda mod: {'class': f'{mod}.Weights', 'kwargs': {'scale': 1}}
+    with quiet():
+        c1 = Config(d / 'data', E.write(d, 'w1', cfg(n=3, w=wdef(LIB)))).chain()
+        c2 = Config(d / 'data', E.write(d, 'w2', cfg(n=3, w=wdef('contracts.pipelines.other.lib')))).chain()
+        p1, p2 = rel_paths(c1, d / 'data'), rel_paths(c2, d / 'data')
+        differ = c1['mem'].value != c2['mem'].value
+    if p1['report'] == p2['report'] and differ:
+        E.viol('C03', 'injective', 'parameter objects of two different classes with the same class name (different modules) have the same '
+               f'persisted text and give report the same location {p1["report"]} although they compute different values',
+               ('contracts.pipelines.lib.Weights', 'contracts.pipelines.other.lib.Weights'), key='same-class-name')
+
+
+_SEED_PROBE = r"""
+import sys, json, logging
+sys.path.insert(0, {verif!r})
+logging.disable(logging.CRITICAL)
+from pathlib import Path
+from taskchain import Config
+import io, contextlib
+out = {{}}
+with contextlib.redirect_stdout(io.StringIO()), contextlib.redirect_stderr(io.StringIO()):
+    for name, f in {files!r}.items():
+        ch = Config(Path({data!r}), f).chain()
+        out[name] = {{n: (None if t.data_path is None else str(Path(t.data_path).relative_to({data!r}))) for n, t in ch.tasks.items()}}
+print(json.dumps(out))
+"""
+
+
+def s_process_independent(E, tier):
+    """C02: the location does not depend on the process that builds the chain: fresh interpreters under different PYTHONHASHSEED"""
+    import subprocess
+    import sys
+    d = E.dir()
+    verif = os.path.dirname(os.path.dirname(os.path.abspath(__file__)))
+    files = {
+        'json_like': str(E.write(d, 'plain', cfg(n=2, tags={'k': ['x', 'y', {'z': None}], 'a': 'b', 'c': 1.5}, title='t'))),
+        'set_object': str(E.write(d, 'setobj', {'tasks': [f'{LIB}.Loc'], 'ts': {'class': f'{LIB}.TagSet', 'kwargs': {'tags': ['alpha', 'beta', 'gamma', 'delta']}}})),
+    }
+    code = _SEED_PROBE.format(verif=verif, files=files, data=str(d / 'data'))
+    outs = {}
+    for hs in (['1', '2', '3'] if tier == 'quick' else [str(i) for i in range(1, 9)]):
+        env = dict(os.environ, PYTHONHASHSEED=hs)
+        r = subprocess.run([sys.executable, '-c', code], capture_output=True, text=True, env=env, timeout=120)
+        E.tried += 1
+        if r.returncode != 0:
+            E.viol('C02', 'process', f'probe interpreter failed under PYTHONHASHSEED={hs}: {r.stderr.strip()[-200:]}', hs)
+            return
+        outs[hs] = json.loads(r.stdout.strip().splitlines()[-1])
+    first = next(iter(outs.values()))
+    for hs, o in outs.items():
+        if o['json_like'] != first['json_like']:
+            E.viol('C02', 'process', f'JSON-like parameters: locations differ between interpreters (PYTHONHASHSEED={hs}): {o["json_like"]} vs {first["json_like"]}', hs, key='json-like')
+    locs = {o['set_object'][next(iter(o['set_object']))] for o in outs.values()}
+    if len(locs) > 1:
+        E.viol('C02', 'process', 'a parameter object holding a set of strings (AutoParameterObject attribute) is rendered with repr(set): its text, and the '
+               f'storage location of the task, changes with PYTHONHASHSEED: {sorted(locs)}', sorted(locs), key='set-valued-attribute')
+
+
+def s_default_not_persisted(E, tier):
+    """C02: a parameter equal to its declared default (dont_persist_default_value) does not move the task"""
+    from taskchain import Config
+    d = E.dir()
+    E.tried += 2
+    with quiet():
+        a = rel_paths(Config(d / 'data', E.write(d, 'a', {'tasks': [f'{LIB}.Loc']})).chain(), d / 'data')
+        b = rel_paths(Config(d / 'data', E.write(d, 'b', {'tasks': [f'{LIB}.Loc'], 'p': '/x'})).chain(), d / 'data')
+        c = rel_paths(Config(d / 'data', E.write(d, 'c', cfg(n=1))).chain(), d / 'data')
+        c2 = rel_paths(Config(d / 'data', E.write(d, 'c2', cfg(n=1, noise=0, factor=2, total_offset=0, title='t'))).chain(), d / 'data')
+    if a != b:
+        E.viol('C02', 'default', f"Parameter('p', dtype=Path, default='/x', dont_persist_default_value=True): the config value '/x' becomes Path('/x'), "
+               f"which is != the str default, so the parameter is persisted although it has its default value: {a} vs {b}", ('/x',), key='path-dtype-str-default')
+    if c['data:src'] != c2['data:src']:
+        E.viol('C02', 'default', f'spelling out a dont-persist default moved data:src: {c["data:src"]} vs {c2["data:src"]}', 'noise=0', key='plain-default')
+
+
 SCENARIOS = {
-    'C01': [s_values_and_history, s_namespaces], 'C02': [s_same_location, s_different_location], 'C03': [s_different_location],
+    'C01': [s_values_and_history, s_namespaces], 'C02': [s_same_location, s_different_location, s_process_independent, s_default_not_persisted], 'C03': [s_different_location, s_injective],
     'C04': [s_values_and_history], 'C07': [s_forcing], 'C08': [s_graph, s_namespaces], 'C09': [s_contexts, s_namespaces, s_values_and_history],
     'C10': [s_namespaces], 'C11': [s_contexts], 'C13': [s_multichain], 'C18': [s_run_records], 'C19': [s_test_helpers], 'C20': [s_migration],
 }
